@@ -251,6 +251,24 @@ def run(ctx):
                                                                                      " ".join(history(runs[k])[:14])))
         if len(ctx.violations) >= 3:
             break
+    # ---- shutdown with unread lines pending: received by the loader = delivered by the streams --------------
+    nshut = 0
+    for r in runs:
+        sd = r.get("shutdown")
+        if not sd or ctx.violations:
+            continue
+        nshut += 1
+        if sd["lines_total"] == sd["log_lines_sum"]:
+            continue
+        again = drive(ctx, binary, r["mode"], 1, first=r["run"])[0].get("shutdown") or {}
+        if again.get("lines_total") == again.get("log_lines_sum"):
+            raise vlib.InfraError("shutdown counter mismatch of driver run %s/%d not reproduced" % (r["mode"], r["run"]))
+        ctx.violation({"kind": "driver", "mode": r["mode"], "run": r["run"], "seed": ctx.seed, "history": history(r),
+                       "shutdown": sd, "why": "lines lost at shutdown"},
+                      "after a graceful shutdown with %d appended lines still unread, lines_total=%d but the streams "
+                      "delivered sum(log_lines_total)=%d (driver run %s/%d)"
+                      % (sd["burst"], sd["lines_total"], sd["log_lines_sum"], r["mode"], r["run"]))
+    ctx.cov["shutdown_runs_compared"] = nshut
     if ctx.violations:
         return
 
@@ -312,8 +330,12 @@ def replay(ctx, path):
         ctx.seed = int(blob.get("seed", ctx.seed))
         r = drive(ctx, binary, blob["mode"], 1, first=blob["run"])[0]
         rj, _ = validate(ctx, [r["trace"]], "driven", DEV in opened, DEV not in opened, "trace-replay")
+        sd = r.get("shutdown") or {}
         if rj:
             ctx.violation(blob, "reproduced: driver run rejected by TraceCounters.tla")
+        elif sd.get("lines_total") != sd.get("log_lines_sum"):
+            ctx.violation(blob, "reproduced: lines_total=%s, sum(log_lines_total)=%s after shutdown"
+                          % (sd.get("lines_total"), sd.get("log_lines_sum")))
         else:
             print("replay: the run is accepted (not reproduced)")
     else:
